@@ -42,7 +42,7 @@ DEFAULT_SAFETY = [
     (r'(::get_length)$', {'props': ['C07'], 'secondary': ['C06']}),
 ]
 
-C19_FORBIDDEN = re.compile(r'std::io|std::fs|std::env|std::process|std::net|std::time|std::thread|std::sync|'
+C19_FORBIDDEN = re.compile(r'std::io::(stdout|stderr|stdin|Stdout|Stderr|Stdin|stdio)|std::fs|std::env|std::process|std::net|std::time|std::thread|std::sync|'
                            r'core::sync|core::cell|std::cell|static mut|interior mutab|_print|_eprint|std::os')
 
 
@@ -272,7 +272,7 @@ def external_body_fns(image_text, lookup):
 
 
 FRAME_FORBIDDEN = re.compile(
-    r'\b(print|println|eprint|eprintln|dbg|thread_local|lazy_static)\s*!|\bstatic\s+mut\b|\bstd::(io|fs|env|process|net|time|thread|sync|cell|os)\b|'
+    r'\b(print|println|eprint|eprintln|dbg|thread_local|lazy_static)\s*!|\bstatic\s+mut\b|\bstd::(fs|env|process|net|time|thread|sync|cell|os)\b|\b(stdout|stderr|stdin)\s*\(|\b(File|OpenOptions|TcpStream|UdpSocket|UnixStream)\b|'
     r'\bcore::(sync|cell)\b|\b(io::(stdout|stderr|stdin)|Stdout|Stderr)\b|\b(Cell|RefCell|UnsafeCell|OnceCell|OnceLock|LazyLock|LazyCell|Mutex|RwLock|Condvar|Lazy)\b|'
     r'\bAtomic[A-Z]\w*\b|\b(SystemTime|Instant)\b|\b(rand|getrandom|once_cell|libc)::|\bextern\s+"C"|\basm!|'
     r'\b(RandomState|DefaultHasher|BuildHasher|HashMap|HashSet|hash_map|thread_rng|ThreadId|current_thread|available_parallelism)\b|'
@@ -286,6 +286,25 @@ def frame_scan(repo):
     hits = []
     files = 0
     src = os.path.join(repo, 'src')
+    # the files of the crate that are compiled outside `cfg(test)`: walk the `mod x;` declarations from lib.rs and do not
+    # follow those under `#[cfg(test)]` (a test-only module may use threads, clocks, output: it is not a codec path)
+    compiled = set()
+
+    def walk(path):
+        if path in compiled or not os.path.exists(path):
+            return
+        compiled.add(path)
+        b0, _ = rustscan.blank(open(path).read())
+        me = os.path.splitext(os.path.basename(path))[0]
+        dirpath = os.path.dirname(path)
+        subdir = dirpath if me in ('lib', 'mod', 'main') else os.path.join(dirpath, me)
+        for m in re.finditer(r'(?m)^([ \t]*(?:#\[[^\]]*\]\s*)*)(?:pub(?:\([a-z]+\))?\s+)?mod\s+([A-Za-z_0-9]+)\s*;', b0):
+            if re.search(r'cfg\s*\(\s*test\s*\)', m.group(1)):
+                continue
+            for cand in (os.path.join(subdir, m.group(2) + '.rs'), os.path.join(subdir, m.group(2), 'mod.rs')):
+                if os.path.exists(cand):
+                    walk(cand)
+    walk(os.path.join(src, 'lib.rs'))
     for root, dirs, fs in os.walk(src):
         for fn in sorted(fs):
             if not fn.endswith('.rs'):
@@ -293,6 +312,8 @@ def frame_scan(repo):
             path = os.path.join(root, fn)
             rel = os.path.relpath(path, repo)
             if fn == 'tests.rs' or '/tests/' in '/' + rel:
+                continue
+            if compiled and path not in compiled:
                 continue
             files += 1
             text = open(path).read()
@@ -322,10 +343,10 @@ def load_known_findings():
     return res
 
 
-def prepare(workdir, canary=False, skip_body=(), force_external=(), drop_statics=(), drop_contract=()):
+def prepare(workdir, canary=False, skip_body=(), force_external=(), drop_statics=(), drop_contract=(), opaque_consts=()):
     os.makedirs(workdir, exist_ok=True)
     image, maps = gen.build_image(os.path.join(REPO, 'src'), canary=canary, skip_body=skip_body, force_external=force_external,
-                                  drop_statics=drop_statics, drop_contract=drop_contract)
+                                  drop_statics=drop_statics, drop_contract=drop_contract, opaque_consts=opaque_consts)
     name = 'canary' if canary else 'proof'
     d = os.path.join(workdir, name)
     os.makedirs(d, exist_ok=True)
@@ -424,6 +445,7 @@ def decide(props, a, seed, workdir, t0):
     force_external = set()
     drop_statics = set()
     drop_contract = set()
+    opaque_consts = set()
     rejected_msgs = {}
     for _round in range(6):
         fe = [f for f in fails if f['kind'] == 'frontend']
@@ -443,6 +465,12 @@ def decide(props, a, seed, workdir, t0):
                         if ms:
                             if ms.group(1) not in drop_statics and ms.group(1) not in STATIC_ALLOWED:
                                 new_skip.add('$' + ms.group(1))
+                            break
+                        mc = re.match(r'\s*(?:#\[[^\]]*\]\s*)*(?:pub(?:\([a-z]+\))?\s+)?const\s+(\w+)\s*:', image_lines[ln - 1 - back])
+                        if mc and not [r for r in maps['fn_ranges'] if r[0] <= ln <= r[1]]:
+                            # a rejected `const` initialiser outside any function: the constant becomes opaque (R12)
+                            if mc.group(1) not in opaque_consts:
+                                new_skip.add('%' + mc.group(1))
                             break
                         if back and re.search(r'[;{}]\s*$', image_lines[ln - 1 - back]):
                             break
@@ -474,10 +502,12 @@ def decide(props, a, seed, workdir, t0):
                 drop_statics.add(k[1:])
             elif k.startswith('#'):
                 drop_contract.add(k[1:])
+            elif k.startswith('%'):
+                opaque_consts.add(k[1:])
             else:
                 skip_body.add(k)
         ppath, image, maps = prepare(workdir, canary=False, skip_body=skip_body, force_external=force_external, drop_statics=drop_statics,
-                                     drop_contract=drop_contract)
+                                     drop_contract=drop_contract, opaque_consts=opaque_consts)
         lookup = build_fnkey_lookup(image, maps)
         image_lines = image.split('\n')
         vr = run_verus(ppath, os.path.dirname(ppath), None, 8)
@@ -529,11 +559,11 @@ def decide(props, a, seed, workdir, t0):
         prim_lines = [ln for ln in body_lines if re.search(r'//\s*@vf\s*$', image_lines[ln - 1])]
         if f['kind'] == 'verification' and not f['labels'] and prim_lines and f['fn']:
             maps.setdefault('lost_anchors', {}).setdefault(f['fn'], []).append('failure on an unlabelled spliced annotation line %s' % prim_lines[:2])
-    if (skip_body or force_external or drop_statics) and cr is not None:
+    if (skip_body or force_external or drop_statics or drop_contract or opaque_consts) and cr is not None:
         # the canary image must be degraded the same way as the proof image; the canary guards the vacuity of the
         # CONTRACTS (which do not depend on the tree), so if it still cannot be built it is skipped for this run
         try:
-            cpath, cimage, cmaps = prepare(workdir, canary=True, skip_body=skip_body, force_external=force_external, drop_statics=drop_statics, drop_contract=drop_contract)
+            cpath, cimage, cmaps = prepare(workdir, canary=True, skip_body=skip_body, force_external=force_external, drop_statics=drop_statics, drop_contract=drop_contract, opaque_consts=opaque_consts)
             clookup = build_fnkey_lookup(cimage, cmaps)
             cr = run_verus(cpath, os.path.dirname(cpath), None, 8)
         except (gen.LostAnchor, rustscan.ScanError):
@@ -779,6 +809,16 @@ def decide_one(p, a, seed, t0, vr, cr, seeds, kr, fails, maps, image, lookup, co
         # though every obligation is discharged.  It is never counted as an obligation.
         w = witness.search(p, ['bounded cross-check'], {'message': 'bounded witness search', 'fn': None}, REPO)
         search_info = {'ran': True, 'output_tail': (w or {}).get('output', '')[-300:], 'witness': (w or {}).get('failing_input')}
+        sout = (w or {}).get('output', '')
+        if not w or w.get('search_error') or 'SEARCH-TIMEOUT' in sout or not re.search(r'(?m)^(NO-WITNESS|WITNESS) property=%s\b' % p, sout):
+            # the search is the only decider of what lies outside both provers (Display text, histories, assumed contracts):
+            # if it cannot run against this tree (the replay tool no longer builds, it timed out), nothing is claimed
+            why = (w or {}).get('search_error') or ('timed out' if 'SEARCH-TIMEOUT' in sout else 'no verdict line in its output')
+            search_info['ran'] = False
+            search_info['error'] = str(why)[:600]
+            inconclusive.append({'kind': 'search', 'undecided': True, 'labels': [], 'fn': None, 'lines': [],
+                                 'message': 'the bounded witness search did not complete against this tree: %s' % str(why)[:300],
+                                 'rendered': 'the bounded witness search did not complete against this tree: %s' % str(why)[:1500]})
         if w and w.get('failing_input'):
             violations.append({'kind': 'verification', 'message': 'witness search found a failing input although every obligation is discharged',
                                'rendered': w.get('output', ''), 'fn': None, 'labels': [], 'lines': [], 'witness': w,
@@ -922,5 +962,18 @@ def write_evidence(p, tier, seed, t0, cov, violations=0, inconclusive=None, note
     json.dump(ev, open(os.path.join(EVIDENCE_DIR, p + '.json'), 'w'), indent=1)
 
 
+def guarded_main(argv):
+    """An internal error of the machinery is never an alarm: exit 2 (INCONCLUSIVE), not Python's exit status 1."""
+    try:
+        return main(argv)
+    except SystemExit:
+        raise
+    except BaseException as e:   # noqa: BLE001
+        import traceback
+        traceback.print_exc()
+        print('INCONCLUSIVE: internal error of the checking machinery: %r' % (e,))
+        return 2
+
+
 if __name__ == '__main__':
-    sys.exit(main(sys.argv[1:]))
+    sys.exit(guarded_main(sys.argv[1:]))
